@@ -638,10 +638,49 @@ class Discharger:
                 c = mir.const_int(rv["r"])
                 if rv["op"] == "AddWithOverflow" and c == 1 and ty == "usize":
                     return (True, "D-interval", "usize counter incremented by one: bounded by a container or recursion depth already in memory")
-                if rv["op"] == "AddWithOverflow" and c == 1 and ty == "u32" and f.name == "parser::lexer::Lexer::advance":
+                if rv["op"] == "SubWithOverflow" and c is not None and c >= 1 and ty in ("usize", "u32", "u64", "u8", "u16") and \
+                        self._guarded_decrement(f, b, mir.op_local(rv["l"]), c):
+                    return (True, "D-dominating-test", "unsigned decrement by %d dominated by a test that the value is at least %d" % (c, c))
+                if rv["op"] == "AddWithOverflow" and c == 1 and ty == "u32" and f.name.startswith("parser::lexer::"):
                     return (True, "D-input-size", "line/column counter (assumption: fewer than 2^32 lines and columns)")
                 break
         return None
+
+    def _guarded_decrement(self, f, b, L, c):
+        """is block b dominated by the true edge of `L > k` / `L >= k` / `L != 0` (k large enough) with L unchanged in between?"""
+        if L is None:
+            return False
+        dom = f.dominators()
+        defs_L = {bb for bb, i, s in f.stmts() if s["k"] == "assign" and s["place"]["local"] == L and not s["place"]["proj"]}
+        for D in dom[b]:
+            if D == b:
+                continue
+            term = f.blocks[D]["term"]
+            if term["k"] != "switch":
+                continue
+            cl = mir.op_local(term["discr"])
+            test = None
+            copies = {L}
+            for s in f.blocks[D]["stmts"]:
+                if s["k"] != "assign" or s["place"]["proj"]:
+                    continue
+                rv = s["rv"]
+                if rv["k"] == "use" and mir.op_local(rv["op"]) in copies:
+                    copies.add(s["place"]["local"])
+                if s["place"]["local"] == cl and rv["k"] == "binop" and mir.op_local(rv["l"]) in copies:
+                    k = mir.const_int(rv["r"])
+                    if k is not None and ((rv["op"] == "Gt" and k >= c - 1) or (rv["op"] == "Ge" and k >= c) or (rv["op"] == "Ne" and k == 0 and c == 1)):
+                        test = rv["op"]
+            if not test:
+                continue
+            true_t = term["otherwise"]
+            if true_t not in dom[b]:
+                continue
+            # blocks on paths from the true edge to b that do not go through the test again
+            between = {x for x in f.reachable(true_t, avoid=[D]) if b in f.reachable(x, avoid=[D])} - {b}
+            if not (defs_L & between):
+                return True
+        return False
 
     def d_const_index(self, f, b, t, kind, what):
         if kind != "assert" or not what.startswith("BoundsCheck"):
@@ -731,8 +770,12 @@ class Discharger:
             # Add/Sub/Mul multiply non-zero denominators) — the constructors are checked by C09-zero / C06
             self.ctx.assume("ratio denominators are non-zero: literals n/0 are rejected by the lexer (RationalDivideByZero), division "
                             "tests every divisor factor (C09-zero), and + - * multiply non-zero denominators")
-            lex = self.fb.find("parser::lexer::Lexer::number")
-            guard = any(v == "RationalDivideByZero" for _, _, _, _, v in mir.aggregates(lex))
+            # what the reader does with n/0 (abstract run of the whole lexer, lexrun.py): an error, never a Rational token
+            from . import lexrun
+            if not hasattr(self, "_ratio_zero"):
+                rows = [lexrun.lex(self.fb, t) for t in ("1/0 ", "-3/0 ", "0/0 ", "7/00 ")]
+                self._ratio_zero = all(r and r[-1][0] == "error" and not any(x[0] == "Rational" for x in r) for r in rows)
+            guard = self._ratio_zero
             return (guard, "D-div-guarded", "denominator non-zero by construction (reader + C09-zero)" if guard else "the reader no longer rejects n/0")
         return None
 
